@@ -110,8 +110,10 @@ def run_memory_like(cls_factory, ops, standard):
         if name in lg.stats:
             xe, y = lg.get_stat(name, "episode")
             xs, y2 = lg.get_stat(name, "step")
-            assert list(y) == list(y2)
-            stats.append([[int(a), int(b), int(c)] for a, b, c in zip(xe, xs, y)])
+            if list(y) != list(y2):      # the two views of one key must list the same records in the same (recording) order
+                stats.append({"episode_view": [[int(a), int(c)] for a, c in zip(xe, y)], "step_view": [[int(b), int(c)] for b, c in zip(xs, y2)]})
+            else:
+                stats.append([[int(a), int(b), int(c)] for a, b, c in zip(xe, xs, y)])
         else:
             stats.append([])
     return {"episodes": int(lg.n_episodes), "steps": int(lg.n_steps), "stats": stats,
